@@ -771,6 +771,25 @@ def _run_operator(case):
         return _small[0]
 
     if op == "SecondPiolaKirchhoffStressTensor":
+        # E2, depth 3: evaluate, change the node coordinates of the SAME element group (rotation + stretch), evaluate again: the
+        # element arrays must be those of a freshly built group with the new coordinates
+        name = "inhA" if adm.get("inhA") else next((n for n in S if adm[n] and n != "zero"), None)
+        if name is not None:
+            u = _vec(S[name])
+            gm = make_group(et, Xe)
+            NL.SecondPiolaKirchhoffStressTensor(mat, state_of(gm, u))
+            Rm = Z.rot3([0.3, -0.5, 1.0] if dim == 3 else [0.0, 0.0, 1.0], 0.9)
+            Xn = (Xe.reshape(-1, 3) * np.array([1.0, 1.15, 0.9])) @ Rm.T
+            gm.coord = Xn.copy()
+            Ka, Ra = NL.SecondPiolaKirchhoffStressTensor(mat, state_of(gm, u))
+            Kb, Rb = NL.SecondPiolaKirchhoffStressTensor(mat, state_of(make_group(et, Xn.reshape(Xe.shape)), u))
+            ntr += 3
+            sck = max(float(np.abs(np.asarray(Kb)).max()), 1e-300)
+            scr = max(float(np.abs(np.asarray(Rb)).max()), 1e-300)
+            ek, er = float(np.abs(np.asarray(Ka) - np.asarray(Kb)).max()) / sck, float(np.abs(np.asarray(Ra) - np.asarray(Rb)).max()) / scr
+            if ek > 1e-11 or er > 1e-11:
+                v.append(viol("stale_after_coord_change", f"{op} {law} {et} at {name}: after the coordinates of the group were changed, K_e / R_e differ from those "
+                                                          f"of a freshly built group by {ek:.2e} / {er:.2e}", **dict(key, state=name)))
         for name in SPK_STATES[level]:
             if not adm[name]:
                 info["inadmissible"] += 1
